@@ -925,6 +925,16 @@ impl HeadInbox {
     }
 }
 
+#[cfg(feature = "echo_verif")]
+impl HeadInbox {
+    /// Verification-only: ingress ids of the pending envelopes in the order
+    /// the pending map iterates them (read-only door; `pending` is private).
+    #[must_use]
+    pub fn verif_pending_ids(&self) -> Vec<Hash> {
+        self.pending.keys().copied().collect()
+    }
+}
+
 #[cfg(test)]
 mod tests {
     use super::*;
